@@ -298,6 +298,9 @@ class C20(Harness):
         elif k == "unknown-strategy":
             f = NF("naive")
             out["naive"] = attempt(lambda: f.fit(good), lambda: f.is_fitted)
+            for frag in ("", "l", "st", "las", "mea", "Last", "last "):  # fragments / near-misses of the valid names
+                g_ = NF(frag)
+                out["naive:%r" % frag] = attempt(lambda g_=g_: g_.fit(good), lambda g_=g_: g_.is_fitted)
             out["make_reduction"] = attempt(lambda: red.make_reduction(Reg(), strategy="iterated"))
             out["make_reduction.scitype"] = attempt(lambda: red.make_reduction(Reg(), scitype="panel"))
             out["evaluate"] = attempt(lambda: ev.evaluate(Member(p=1), sp.SlidingWindowSplitter(fh=1, window_length=1), good, strategy="refresh", scoring=make_score(W)))
@@ -354,7 +357,9 @@ class C20(Harness):
             if base == "ok":
                 P.check("rejected-iff-invalid", (~invalid) if not isinstance(invalid, bool) else (not invalid), {"entry": name, "result": res, "expected": "rejected"})
             else:
-                P.check("rejected-iff-invalid" if invalid is not False else "valid-twin-accepted", invalid, {"entry": name, "result": res, "expected": "accepted"})
+                # a refusal is only right for an invalid input (one label in both worlds: a symbolic validity condition
+                # in the symbolic run is a plain False in the replay)
+                P.check("valid-twin-accepted", invalid, {"entry": name, "result": res, "expected": "accepted"})
 
         if k == "unsorted-index":
             l = inp["labels"]
